@@ -504,3 +504,100 @@ func OneShot(kind string, timeout time.Duration, lits []*Term) (Verdict, string,
 	}
 	return Unknown, txt, time.Since(t0)
 }
+
+// OneShotModel runs one query in a fresh solver process with model production and returns
+// the values of vars on sat (used when only a fall-back back end could decide a query, so
+// that the counterexample can still be replayed natively).
+func OneShotModel(kind string, timeout time.Duration, lits []*Term, vars []*Term) (Verdict, map[string]uint64) {
+	var buf bytes.Buffer
+	buf.WriteString("(set-option :produce-models true)\n")
+	if strings.HasPrefix(kind, "cvc5") {
+		buf.WriteString("(set-logic ALL)\n")
+	}
+	defined := map[int]bool{}
+	var use []*Term
+	for _, l := range lits {
+		if l.IsConst() {
+			if l.Val == 0 {
+				return Unsat, nil
+			}
+			continue
+		}
+		use = append(use, l)
+	}
+	emitDefs(&buf, defined, use)
+	for _, l := range use {
+		fmt.Fprintf(&buf, "(assert %s)\n", l.ref())
+	}
+	buf.WriteString("(check-sat)\n")
+	var names []string
+	for _, v := range vars {
+		if v.Op == OpVar && defined[v.id] {
+			names = append(names, v.ref())
+		}
+	}
+	const chunk = 200
+	for i := 0; i < len(names); i += chunk {
+		j := i + chunk
+		if j > len(names) {
+			j = len(names)
+		}
+		buf.WriteString("(get-value (" + strings.Join(names[i:j], " ") + "))\n")
+	}
+	argv := solverArgv(kind, timeout)
+	var args []string
+	for _, a := range argv[1:] {
+		if a == "--incremental" {
+			continue
+		}
+		args = append(args, a)
+	}
+	cmd := exec.Command(argv[0], args...)
+	cmd.Stdin = &buf
+	done := make(chan struct{})
+	var out []byte
+	go func() { out, _ = cmd.CombinedOutput(); close(done) }()
+	select {
+	case <-done:
+	case <-time.After(timeout + 5*time.Second):
+		if cmd.Process != nil {
+			cmd.Process.Kill()
+		}
+		<-done
+		return Unknown, nil
+	}
+	txt := strings.TrimSpace(string(out))
+	first := txt
+	rest := ""
+	if i := strings.IndexByte(txt, '\n'); i >= 0 {
+		first, rest = strings.TrimSpace(txt[:i]), txt[i+1:]
+	}
+	switch first {
+	case "unsat":
+		return Unsat, nil
+	case "sat":
+	default:
+		return Unknown, nil
+	}
+	res := map[string]uint64{}
+	// one s-expression per get-value
+	depth, start := 0, -1
+	for i := 0; i < len(rest); i++ {
+		switch rest[i] {
+		case '(':
+			if depth == 0 {
+				start = i
+			}
+			depth++
+		case ')':
+			depth--
+			if depth == 0 && start >= 0 {
+				if err := parseValues(rest[start:i+1], res); err != nil {
+					return Sat, nil
+				}
+				start = -1
+			}
+		}
+	}
+	return Sat, res
+}
